@@ -89,6 +89,15 @@ def c06_custom(pid, tier, plan, scr, hbin, specdir):
         if len(cov["samples"]) < 3:
             cov["samples"].append(dict(source=cfg, input=inputs[0]))
     cov["exhaustive"] = tier == "thorough"
+    # re-admission: transactions admitted with the exact fee, still pending when governance changes the fees, are
+    # offered again in recheck mode after every block (MC_Par's RecheckTail behaviours)
+    behs = [b for b in vlib.bfs_schedules(specdir, "MC_Par.tla", "MC_Par.cfg", scr, timeout=900) if any(e.get("a") == "Recheck" for e in b)]
+    if not behs:
+        raise vlib.Inconclusive("no recheck behaviours from MC_Par (dead driver)")
+    cov["mc_runs"].append(vlib.bfs_schedules.last)
+    rec, _ = vlib.record_behaviours(hbin, behs, scr, name="recheck")
+    recs.append((rec, "tlc-bfs-sweep:MC_Par.cfg pending transactions re-admitted after fee changes", len(behs)))
+    cov["recheck_behaviours"] = len(behs)
     violations, known_hits = classify(pid, recs, cov, scr, specdir)
     return cov, violations, known_hits
 
@@ -417,7 +426,7 @@ PLANS = {
                 rule="TLC breadth-first sweep MC_Par: parameter structures with each field at/inside/outside its bounds through a real governance proposal, followed by probes of every dependent rule; stored parameters re-validated against the stated rules in every observed state", assumptions=COMMON_ASSUME),
     "C17": dict(mc=FEE_MC, sim=FEE_SIM, sweep=FEE_SWEEP, random=rnd("mix", (300, 3), (2000, 15)),
                 rule="at every block boundary of the corpus the enterprise supply queries (SupplyOf every denomination, EnterpriseSupply, TotalUnlocked, TotalSupply with every page size in key and offset mode) are recorded and checked against bank supply and total locked of the same state", assumptions=COMMON_ASSUME),
-    "C07": dict(mc=REG_MC, sim=REG_SIM, sweep=REG_SWEEP, random=rnd("reg", (300, 3), (2000, 20)),
+    "C07": dict(mc=both(REG_MC), sim=REG_SIM, sweep=REG_SWEEP, random=rnd("reg", (300, 3), (2000, 20)),
                 rule="TLC exhaustive on MC_Reg (registrations, records at lower/equal/next/gapped/huge heights by owners and strangers, purchases incl. Exec-wrapped and huge, gov limit changes); TLC-simulated + seeded random schedules executed on the real app; every record ever accepted is re-queried after every step", assumptions=COMMON_ASSUME),
     "C08": dict(mc=both(REG_MC, REG_GHOST, REG_DEEP), sim=REG_SIM, sweep=REG_SWEEP, random=rnd("reg", (300, 3), (2000, 20)),
                 rule="as C07; view = counters, limits, reported storage, in-state key sets (point queries and store iteration)", assumptions=COMMON_ASSUME),
